@@ -297,6 +297,9 @@ def r7(ctx: Ctx) -> None:
     _c04.r2(ctx)
     _c04.r4(ctx)
     _c04.yaml_emitter_keeps_order(ctx)     # die and allocation documents go through the same sink
+    from .common import support
+    # nets and weights say the same thing when read back: the weight is emitted as the number it is (seeded change C19-9)
+    support(ctx, [_c04.r8], {"dump_yaml_edges"})
 
 
 @rule("C19", "R8.stage-kind-flags", "CCP-TABLE",
